@@ -510,19 +510,19 @@ def run(ctx):
         peers_level(ctx)
 
 # ---------- (f) outbound direction through the real transports (TLS on loopback, SSH against an in-process paramiko server, Unix) ----------
-def gen_peer(rng, transport):
+def gen_peer(rng, transport, force=False):
     base = rng.choice([0, 1])
     msgs = gen_msgs(rng)
     delay = 0
-    if rng.random() < 0.5:          # one message far larger than a socket buffer / an SSH packet, the server starts reading late
+    if force or rng.random() < 0.5:          # one message far larger than a socket buffer / an SSH packet, the server starts reading late
         unit = rng.choice(['é€x', '<v>0123456789</v>', '\U0001F600', 'q'])
         msgs.insert(rng.randrange(len(msgs) + 1), '<data>%s</data>' % (unit * (rng.randint(40000, 400000) // len(unit.encode()))))
         delay = rng.choice([0, 20, 50])
     case = dict(kind='peer', transport=transport, base=base, msgs=msgs, reader_delay_ms=delay)
-    if transport == 'ssh' and rng.random() < 0.6:
+    if transport == 'ssh' and (force or rng.random() < 0.6):
         # a peer that grants a small window and small packets: Channel.send accepts less than it is given, at offsets
         # that are no multiple of any buffer size of the client
-        case['ssh_window'] = [rng.choice([4096, 5000, 9000, 20000]), rng.choice([4096, 4200, 6000])]
+        case['ssh_window'] = [rng.choice([4096, 5000, 9000, 20000]), rng.choice([4096, 4096, 4200, 6000]) if not force else 4096]
     return case
 
 def oracle_peer(case, obs):
@@ -576,9 +576,9 @@ def peers_level(ctx):
     per = {'tls': 5, 'ssh': 5, 'unix': 2} if quick else {'tls': 60, 'ssh': 60, 'unix': 20}
     n = 0
     for transport in ('tls', 'ssh', 'unix'):
-        for _ in range(per[transport]):
+        for k in range(per[transport]):
             if too_many(ctx): break
-            case = gen_peer(rng, transport)
+            case = gen_peer(rng, transport, force=(k < 2))        # the first two of each transport: a large message, and on SSH a small window
             obs, probs, _ = check_peer(ctx, case)
             n += 1
             ctx.count({k: case.get(k) for k in ('kind', 'transport', 'base', 'msgs', 'reader_delay_ms', 'ssh_window')}, nontrivial=True)
